@@ -332,9 +332,13 @@ impl Check for NdlRoundTrip {
         700
     }
     fn run(&self, e: &mut Entropy, ctx: &mut Ctx) -> Result<(), Failure> {
+        // rendering and mutant choice are decoded before the tree so that they are not starved of entropy
+        let r = gen_render(e);
+        let which = e.choose(7);
+        let pick_seed = e.u16() as usize;
+        let pick_seed2 = e.u16() as usize;
         let mut escaped = false;
         let tree = gen_tree(e, &mut escaped);
-        let r = gen_render(e);
         let lines = lines_of(&tree);
         let want = expected_sim(&tree);
         for (name, rr) in [("generated rendering", r.clone()), ("plain tab rendering", Render { trailing_newline: true, ..Default::default() })] {
@@ -351,21 +355,20 @@ impl Check for NdlRoundTrip {
         }
         // one structural mutant
         let mut ml = lines.clone();
-        let pick_line = |e: &mut Entropy, pred: &dyn Fn(&Line) -> bool| -> Option<usize> {
+        let pick_line = |_e: &mut Entropy, pred: &dyn Fn(&Line) -> bool| -> Option<usize> {
             let idx: Vec<usize> = ml_idx(&lines, pred);
             if idx.is_empty() {
                 None
             } else {
-                Some(idx[e.choose(idx.len())])
+                Some(idx[(pick_seed * idx.len()) >> 16])
             }
         };
-        let which = e.choose(7);
         let mutant = match which {
             0 => pick_line(e, &|l| l.role == "ip" || l.role == "mitem" || l.role == "network" || l.role == "machine").map(Mutant::WrongChildType),
             1 => pick_line(e, &|l| l.depth >= 1).map(Mutant::ExtraIndent),
             2 => pick_line(e, &|l| l.role == "network" || l.role == "machine" || l.role == "msection" || l.role == "mitem" || l.role == "ip").map(Mutant::LessIndent),
             3 => pick_line(e, &|_| true).map(Mutant::UnknownKeyword),
-            4 => Some(Mutant::MissingSection { machine: e.choose(tree.machines.len()), section: e.choose(3) }),
+            4 => Some(Mutant::MissingSection { machine: (pick_seed * tree.machines.len()) >> 16, section: (pick_seed2 * 3) >> 16 }),
             5 => Some(Mutant::DuplicateNetworkId),
             _ => pick_line(e, &|l| !l.args.is_empty()).map(Mutant::DuplicateArgument),
         }
@@ -390,7 +393,7 @@ impl Check for NdlRoundTrip {
                 // it is parsed at the Network level where IP is not allowed
                 ml[*i].depth -= 1
             }
-            Mutant::UnknownKeyword(i) => ml[*i].kw = *e.pick(&["Foo", "Netwerk", "Apps", "Host", "Protocolz"]),
+            Mutant::UnknownKeyword(i) => ml[*i].kw = ["Foo", "Netwerk", "Apps", "Host", "Protocolz"][(pick_seed2 * 5) >> 16],
             Mutant::MissingSection { machine, section } => {
                 ml.retain(|l| !(l.machine == Some(*machine) && l.section == Some(*section)));
             }
